@@ -33,6 +33,10 @@ def same(a, b):
         return a is None and b is None
     if isinstance(a, (tuple, list)) and isinstance(b, (tuple, list)):
         return len(a) == len(b) and all(same(x, y) for x, y in zip(a, b))
+    if hasattr(a, "adjacency") and hasattr(b, "adjacency") and hasattr(a, "node_weights"):
+        # derived network objects (network_1(), subnetwork(), ...): compared by content
+        return a.N == b.N and a.directed == b.directed and same(a.adjacency, b.adjacency) \
+            and same(a.node_weights, b.node_weights)
     if isinstance(a, dict) and isinstance(b, dict):
         return a.keys() == b.keys() and all(same(a[k], b[k]) for k in a)
     try:
@@ -570,6 +574,137 @@ def spec_spatialnetwork():
                 argsets={"key": ["w"], "link_attribute": ["w"]})
 
 
+def _clim_mut():
+    return {
+        "set_threshold": lambda o, rng: o.set_threshold(
+            rng.choice([t for t in (0.25, 0.35, 0.5, 0.6) if t != o.threshold()])),
+        "set_non_local": lambda o, rng: o.set_non_local(not o.non_local()),
+        "set_link_density": lambda o, rng: o.set_link_density(rng.choice([0.3, 0.45, 0.6])),
+    }
+
+
+def _two_grids(rng):
+    from pyunicorn.core import GeoGrid
+    T = 36
+    n1, n2 = rng.choice([3, 4]), rng.choice([3, 4])
+    g1 = GeoGrid(np.arange(float(T)), np.array([rng.choice([-40., -10., 25.]) + i for i in range(n1)]),
+                 np.array([rng.choice([0., 40., 100.]) + 3 * i for i in range(n1)]), silence_level=3)
+    g2 = GeoGrid(np.arange(float(T)), np.array([rng.choice([-30., 5., 50.]) + i for i in range(n2)]),
+                 np.array([rng.choice([20., 160.]) + 3 * i for i in range(n2)]), silence_level=3)
+    return T, n1, n2, g1, g2
+
+
+def spec_coupledclimate():
+    import pyunicorn.climate as C
+
+    def make(rng):
+        T, n1, n2, g1, g2 = _two_grids(rng)
+        nprng = np.random.RandomState(rng.randrange(2 ** 31))
+        S = nprng.rand(n1 + n2, n1 + n2)
+        S = (S + S.T) / 2
+        np.fill_diagonal(S, 1.0)
+        o = C.CoupledClimateNetwork(g1, g2, S.copy(), threshold=0.4, non_local=rng.random() < 0.5,
+                                    silence_level=3)
+        o._verif_in = (g1, g2, S)
+        return o
+
+    def twin(o):
+        g1, g2, S = o._verif_in
+        return C.CoupledClimateNetwork(g1, g2, S.copy(), threshold=o.threshold(),
+                                       non_local=o.non_local(), node_weight_type=o.node_weight_type,
+                                       silence_level=3)
+    return dict(cls=C.CoupledClimateNetwork, make=make, twin=twin, mutators=_clim_mut(),
+                summary=SUMMARY_NET + ["threshold()", "non_local()", "number_cross_layer_links()",
+                                       "number_internal_links()", "cross_link_density()",
+                                       "cross_degree()", "internal_degree()", "cross_transitivity()",
+                                       "adjacency_1()", "cross_layer_adjacency()"],
+                argsets={})
+
+
+def spec_coupledtsonis():
+    import pyunicorn.climate as C
+
+    def make(rng):
+        T, n1, n2, g1, g2 = _two_grids(rng)
+        nprng = np.random.RandomState(rng.randrange(2 ** 31))
+        o1, o2 = nprng.randn(T, n1), nprng.randn(T, n2)
+        o2[:, 0] += o1[:, 0]
+        mk = lambda: (C.ClimateData(observable=o1.copy(), grid=g1, time_cycle=12, silence_level=3),  # noqa
+                      C.ClimateData(observable=o2.copy(), grid=g2, time_cycle=12, silence_level=3))
+        o = C.CoupledTsonisClimateNetwork(*mk(), threshold=0.4, non_local=rng.random() < 0.5,
+                                          silence_level=3)
+        o._verif_mk = mk
+        return o
+
+    def twin(o):
+        return C.CoupledTsonisClimateNetwork(*o._verif_mk(), threshold=o.threshold(),
+                                             non_local=o.non_local(),
+                                             node_weight_type=o.node_weight_type, silence_level=3)
+    return dict(cls=C.CoupledTsonisClimateNetwork, make=make, twin=twin, mutators=_clim_mut(),
+                summary=SUMMARY_NET + ["threshold()", "non_local()", "similarity_measure()",
+                                       "number_cross_layer_links()", "cross_link_density()",
+                                       "cross_degree()"], argsets={})
+
+
+def spec_rainfall():
+    import pyunicorn.climate as C
+    from pyunicorn.core import GeoGrid
+
+    def make(rng):
+        n, T = rng.choice([5, 6]), 48
+        nprng = np.random.RandomState(rng.randrange(2 ** 31))
+        obs = np.abs(nprng.randn(T, n)) * (nprng.rand(T, n) < 0.7)
+        lat = np.array([rng.choice([-40., -10., 0., 25.]) + i for i in range(n)])
+        lon = np.array([rng.choice([0., 40., 100.]) + 3 * i for i in range(n)])
+        grid = GeoGrid(np.arange(float(T)), lat, lon, silence_level=3)
+        mk = lambda: C.ClimateData(observable=obs.copy(), grid=grid, time_cycle=12, silence_level=3)  # noqa
+        o = C.RainfallClimateNetwork(mk(), threshold=0.3, non_local=rng.random() < 0.5,
+                                     scale_fac=1.0, offset=0.0, silence_level=3)
+        o._verif_mk = mk
+        return o
+
+    def twin(o):
+        return C.RainfallClimateNetwork(o._verif_mk(), threshold=o.threshold(),
+                                        non_local=o.non_local(), scale_fac=1.0, offset=0.0,
+                                        node_weight_type=o.node_weight_type, silence_level=3)
+    return dict(cls=C.RainfallClimateNetwork, make=make, twin=twin, mutators=_clim_mut(),
+                summary=SUMMARY_NET + ["threshold()", "non_local()", "similarity_measure()"],
+                argsets={})
+
+
+def spec_eventseriesclimate():
+    import pyunicorn.climate as C
+    from pyunicorn.core import GeoGrid
+
+    def make(rng):
+        n, T = rng.choice([4, 5]), 40
+        nprng = np.random.RandomState(rng.randrange(2 ** 31))
+        ev = (nprng.rand(T, n) < 0.3).astype(float)
+        lat = np.array([rng.choice([-40., -10., 0., 25.]) + i for i in range(n)])
+        lon = np.array([rng.choice([0., 40., 100.]) + 3 * i for i in range(n)])
+        grid = GeoGrid(np.arange(float(T)), lat, lon, silence_level=3)
+        method = rng.choice(["ES", "ECA"])
+        mk = lambda **kw: C.EventSeriesClimateNetwork(  # noqa
+            C.ClimateData(observable=ev.copy(), grid=grid, time_cycle=12, silence_level=3),
+            method=method, taumax=3.0, symmetrization="mean", silence_level=3, **kw)
+        o = mk()
+        o._verif_mk = mk
+        return o
+
+    def twin(o):
+        # the constructor always thresholds at 0: a threshold can only be given through the setter
+        t = o._verif_mk(non_local=o.non_local(), node_weight_type=o.node_weight_type)
+        if o.threshold() != t.threshold():
+            t.set_threshold(o.threshold())
+        return t
+    mut = _clim_mut()
+    mut["set_threshold"] = lambda o, rng: o.set_threshold(
+        rng.choice([t for t in (0.1, 0.2, 0.3, 0.4) if t != o.threshold()]))
+    return dict(cls=C.EventSeriesClimateNetwork, make=make, twin=twin, mutators=mut,
+                summary=SUMMARY_NET + ["threshold()", "non_local()", "similarity_measure()"],
+                argsets={})
+
+
 def spec_crossrecurrenceplot():
     from pyunicorn.timeseries import CrossRecurrencePlot
 
@@ -695,6 +830,10 @@ SPECS = {
     "JointRecurrencePlot": spec_jointrecurrenceplot,
     "InterSystemRecurrenceNetwork": spec_intersystem,
     "SpatialNetwork": spec_spatialnetwork,
+    "CoupledClimateNetwork": spec_coupledclimate,
+    "CoupledTsonisClimateNetwork": spec_coupledtsonis,
+    "RainfallClimateNetwork": spec_rainfall,
+    "EventSeriesClimateNetwork": spec_eventseriesclimate,
 }
 
 SKIP_QUERIES = {"cache_clear", "_nsi_betweenness"}
